@@ -313,7 +313,7 @@ func testChunks(t *testing.T) {
 		}
 		emit("corpus", rs, 2, 1000, 1000, 0o644)
 	}
-	n := r.N(90, 3000)
+	n := r.N(90, 2000)
 	for i := 0; i < n; i++ {
 		var rs []run
 		var total int
@@ -688,7 +688,7 @@ func testPipeline(t *testing.T) {
 	for _, pc := range corpus {
 		runCase("corpus", pc)
 	}
-	n := r.N(30, 400)
+	n := r.N(30, 300)
 	for i := 0; i < n; i++ {
 		var pc pcase
 		switch x := rng.Intn(100); {
